@@ -1,2 +1,87 @@
-#![allow(dead_code, unused_imports)]
+//! U5 (drop dispatch) and U6 (teardown) harnesses.  This module is a child of
+//! `drop.rs`, so it can call the private teardown functions directly.
+#![allow(dead_code, unused_imports, static_mut_refs)]
 use super::*;
+use crate::hash::HashMap;
+use crate::link::Link;
+use crate::rc::RcInnerPtr;
+use crate::verif::util::*;
+use crate::Rc;
+
+// ------------------------------------------------------------ U5 dispatch
+// Call log of the four callees of `Rc::drop`; each stub *is* the callee's
+// frame as far as dispatch is concerned (it records the call and does nothing).
+static mut CALLS_DU: u8 = 0;
+static mut CALLS_DUA: u8 = 0;
+static mut CALLS_DC: u8 = 0;
+static mut CALLS_OC: u8 = 0;
+static mut OC_SOME: bool = false;
+
+unsafe fn stub_du<T>(_this: &mut Rc<T>) {
+    CALLS_DU += 1;
+}
+unsafe fn stub_dua<T>(_this: &mut Rc<T>) {
+    CALLS_DUA += 1;
+}
+unsafe fn stub_dc<T>(_cycle: HashMap<Link<T>, usize>) {
+    CALLS_DC += 1;
+}
+fn stub_oc<T>(_this: &Rc<T>) -> Option<HashMap<Link<T>, usize>> {
+    unsafe {
+        CALLS_OC += 1;
+        if OC_SOME {
+            Some(HashMap::default())
+        } else {
+            None
+        }
+    }
+}
+
+/// `Rc::drop` over ALL counter values, with and without a table entry of any kind.
+#[kani::proof]
+#[kani::unwind(8)]
+#[kani::stub(crate::drop::drop_unreachable, stub_du)]
+#[kani::stub(crate::drop::drop_unreachable_with_adoptions, stub_dua)]
+#[kani::stub(crate::drop::drop_cycle, stub_dc)]
+#[kani::stub(crate::rc::Rc::orphaned_cycle, stub_oc)]
+fn u5_dispatch() {
+    let a = Rc::new(7u8);
+    let (s, w): (usize, usize) = (kani::any(), kani::any());
+    set_counts(&a, s, w);
+    let has_link: bool = kani::any();
+    if has_link {
+        let k: u8 = kani::any();
+        let l = match k % 3 {
+            0 => fwd(&a),
+            1 => bwd(&a),
+            _ => lpb(&a),
+        };
+        let c: usize = kani::any();
+        kani::assume(c >= 1);
+        install(&a, l, c);
+    }
+    unsafe {
+        OC_SOME = kani::any();
+    }
+    let b = alias(&a);
+    drop(b);
+    let (du, dua, dc, oc) = unsafe { (CALLS_DU, CALLS_DUA, CALLS_DC, CALLS_OC) };
+    assert!(a.inner().weak() == w, "U5.frame.weak_unchanged");
+    if s == 0 || s == MAX {
+        assert!(a.inner().strong() == s, "U5.dead_handle.no_write");
+        assert!(du == 0 && dua == 0 && dc == 0 && oc == 0, "U5.dead_handle.no_call");
+    } else {
+        assert!(a.inner().strong() == s - 1, "U5.live.strong_minus_one");
+        if !has_link {
+            assert!(oc == 0 && dc == 0 && dua == 0, "U5.empty_table.no_trace_no_group_teardown");
+            assert!(du == (if s == 1 { 1 } else { 0 }), "U5.empty_table.drop_unreachable_iff_now_zero");
+        } else if s == 1 {
+            assert!(dua == 1 && du == 0 && oc == 0 && dc == 0, "U5.links_zero.drop_unreachable_with_adoptions_once");
+        } else {
+            assert!(oc == 1 && du == 0 && dua == 0, "U5.links_alive.trace_exactly_once");
+            assert!(dc == (if unsafe { OC_SOME } { 1 } else { 0 }), "U5.links_alive.drop_cycle_iff_orphaned");
+        }
+    }
+    assert!(borrow_free(&a), "U5.no_table_borrow_left");
+    core::mem::forget(a);
+}
